@@ -241,6 +241,7 @@ func splitDischarge(o *Obligation, script string, base string, timeout int) (ok 
 	work := []item{{nil, o.Block, 0}}
 	first := true
 	n := 0
+	began := time.Now()
 	used := map[string]bool{}
 	for len(work) > 0 {
 		it := work[0]
@@ -248,8 +249,8 @@ func splitDischarge(o *Obligation, script string, base string, timeout int) (ok 
 		if !first {
 			// try this case as is
 			n++
-			if n > 40 {
-				return false, n, "", append(failPaths, "case budget exhausted"), attempts
+			if n > 24 || time.Since(began) > time.Duration(4*timeout)*time.Second {
+				return false, n, "", append(failPaths, "case/time budget exhausted"), attempts
 			}
 			var sb strings.Builder
 			sb.WriteString(script[:cut])
